@@ -58,7 +58,11 @@ try:
         dst = os.path.join(ROOT, 'seeded', name)
         os.makedirs(dst, exist_ok=True)
         for f in ('patch.diff', 'demo.py'):
-            shutil.copy(os.path.join(sd, f), os.path.join(dst, f))
+            if os.path.abspath(os.path.join(sd, f)) != os.path.abspath(os.path.join(dst, f)):
+                shutil.copy(os.path.join(sd, f), os.path.join(dst, f))
+        if notests and 'confirmed_by_main_session' in meta:
+            rec['confirmed'] = dict(meta['confirmed_by_main_session'], **rec['confirmed'])
+            rec['pytest_summary'] = meta.get('pytest_summary_with_change')
         meta.update({'confirmed_by_main_session': rec['confirmed'], 'what_was_run': 'selftest/try_seed.py: demo on clean + patched scratch copy of /repo HEAD, pytest tests/ on patched copy, bin/check on patched copy',
                      'pytest_summary_with_change': rec.get('pytest_summary'), 'check_results': rec['checks'], 'repo_head': subprocess.run(['git', '-C', '/repo', 'rev-parse', '--short', 'HEAD'], capture_output=True, text=True).stdout.strip()})
         json.dump(meta, open(os.path.join(dst, 'meta.json'), 'w'), indent=1)
